@@ -37,6 +37,136 @@ def simple(ctx):
     return ctx.chk.merge([ctx.harness()])
 
 
+def oparse_file(ctx, records_path, what):
+    """Run the independent PS3.5 parser over a JSON-lines record file; returns its report."""
+    import ps35_parse
+    out = {"records": 0, "violations": [], "elements": 0, "pad_checked": 0}
+    with open(records_path) as fh:
+        for line in fh:
+            if not line.strip():
+                continue
+            rec = json.loads(line)
+            errs, info = ps35_parse.validate_record(rec)
+            out["records"] += 1
+            out["elements"] += info.get("elements", 0)
+            out["pad_checked"] += info.get("pad_checked", 0)
+            if errs:
+                out["violations"].append({"id": rec.get("id"), "errors": errs[:5], "ctx": rec.get("ctx"),
+                                          "key": rec.get("key"), "hex": rec["hex"][:8192]})
+    return out
+
+
+def _oparse_chunk(args):
+    path, start, end = args
+    import ps35_parse
+    out = {"records": 0, "violations": [], "elements": 0, "pad_checked": 0}
+    with open(path, "rb") as fh:
+        fh.seek(start)
+        while fh.tell() < end:
+            line = fh.readline()
+            if not line.strip():
+                continue
+            rec = json.loads(line)
+            errs, info = ps35_parse.validate_record(rec)
+            out["records"] += 1
+            out["elements"] += info.get("elements", 0)
+            out["pad_checked"] += info.get("pad_checked", 0)
+            if errs:
+                out["violations"].append({"id": rec.get("id"), "errors": errs[:5], "ctx": rec.get("ctx"),
+                                          "key": rec.get("key"), "hex": rec["hex"][:8192]})
+    return out
+
+
+def oparse_parallel(path, procs=16):
+    """Validate a JSON-lines record file with the Python PS3.5 parser on several processes."""
+    import multiprocessing
+    size = os.path.getsize(path)
+    if size == 0:
+        return {"records": 0, "violations": [], "elements": 0, "pad_checked": 0}
+    # split on line boundaries
+    cuts = [0]
+    with open(path, "rb") as fh:
+        for i in range(1, procs * 4):
+            fh.seek(size * i // (procs * 4))
+            fh.readline()
+            pos = fh.tell()
+            if pos < size and pos > cuts[-1]:
+                cuts.append(pos)
+    cuts.append(size)
+    jobs = [(path, cuts[i], cuts[i + 1]) for i in range(len(cuts) - 1)]
+    with multiprocessing.Pool(procs) as pool:
+        parts = pool.map(_oparse_chunk, jobs)
+    out = {"records": 0, "violations": [], "elements": 0, "pad_checked": 0}
+    for p in parts:
+        out["records"] += p["records"]
+        out["elements"] += p["elements"]
+        out["pad_checked"] += p["pad_checked"]
+        out["violations"] += p["violations"]
+    return out
+
+
+def classify_parse_error(msg):
+    """Normalised class of a PS3.5 parser complaint (for violation keys)."""
+    import re
+    m = msg.split(": ", 1)[-1]
+    m = re.sub(r"[0-9A-Fa-f]{8}", "T", m)
+    m = re.sub(r"0x[0-9A-Fa-f]+", "X", m)
+    m = re.sub(r"\d+", "N", m)
+    return m[:80]
+
+
+def parse_violations(merged, rep, prefix):
+    seen = {}
+    for v in rep["violations"]:
+        cls = classify_parse_error(v["errors"][0])
+        key = "%s|%s|%s" % (prefix, v.get("key") or "-", cls)
+        if key in seen:
+            seen[key]["count"] += 1
+            continue
+        seen[key] = {"key": key, "what": "independent PS3.5 parser rejects the output: %s" % "; ".join(v["errors"][:3]),
+                     "replay": {"ctx": v.get("ctx"), "id": v.get("id"), "hex": v.get("hex")}, "count": 1}
+        if v.get("ctx"):
+            seen[key]["replay"].update(v["ctx"])
+    merged["violations"] += list(seen.values())
+
+
+def c04(ctx):
+    legs = []
+    if not ctx.replay or "leg" not in (json.load(open(ctx.replay)).get("replay") or {}):
+        pass
+    r1 = ctx.harness(extra=["--leg", "streams"], result="streams.json")
+    path = os.path.join(ctx.work, "written.jsonl")
+    rep = oparse_parallel(path)
+    os.remove(path)
+    r2 = ctx.harness(extra=["--leg", "counts"], result="counts.json")
+    merged = ctx.chk.merge([r1, r2])
+    merged["counters"]["streams_judged_by_python_parser"] = rep["records"]
+    merged["counters"]["elements_parsed_by_python_parser"] = rep["elements"]
+    merged["counters"]["pad_checks_by_python_parser"] = rep["pad_checked"]
+    parse_violations(merged, rep, "oparse")
+    if not ctx.replay and rep["records"] < 1000:
+        merged["inconclusive"] = "only %d streams reached the Python parser" % rep["records"]
+    return merged
+
+
+def c02(ctx):
+    r = ctx.harness()
+    merged = ctx.chk.merge([r])
+    # cross-validate the reference encoder against the independent Python parser: a disagreement
+    # between the two oracles is a harness problem (inconclusive), never a violation
+    rep = oparse_file(ctx, os.path.join(ctx.work, "refstreams.jsonl"), "reference streams")
+    merged["counters"]["reference_streams_cross_validated_by_python_parser"] = rep["records"]
+    merged["counters"]["reference_stream_elements_parsed"] = rep["elements"]
+    if rep["violations"] and not ctx.replay:
+        merged["inconclusive"] = "reference encoder and Python parser disagree: %s" % rep["violations"][0]["errors"][:2]
+    if rep["records"] == 0 and not ctx.replay:
+        merged["inconclusive"] = "no reference stream was cross-validated"
+    return merged
+
+
 PROPS = {
     "C01": {"run": simple, "level": "exploration"},
+    "C02": {"run": c02, "level": "exploration"},
+    "C03": {"run": simple, "level": "exploration"},
+    "C04": {"run": c04, "level": "exploration"},
 }
